@@ -119,7 +119,7 @@ PROPS["C14"] = dict(
               "Goflow.C14Map.mapCustom_spec", "Goflow.C14Map.mapLayerEntries_spec", "Goflow.C14Map.mapLayerKeys_spec", "Goflow.C14Map.parseLoop_step",
               "Goflow.C14Map.element_mapping_spec", "Goflow.C14Map.convertFields_custom", "Goflow.C14Map.custom_record_spec",
               "Goflow.C14Map.lookupNetflow_last", "Goflow.C14Map.effectOf_custom", "Goflow.C14Map.effectOf_numeric"],
-    generators=[dict(name="C14", quick=42, thorough=1260)],
+    generators=[dict(name="C14", quick=70, thorough=1260)],
     harness=["impl"],
     level_text="Theorems: getBytes_eq_extract (GetBytes = bit-list reference for every buffer, offset, length, mode), mapCustom_spec, mapLayerEntries_spec / mapLayerKeys_spec, element_mapping_spec, custom_record_spec, custom_varint_readback / custom_bytes_readback, key_function. PARTIAL: the compile step of the configuration and the whole-frame composition of layer mappings are tied by the differential run and the reference oracles (bit reference incl. exhaustive digests over all 1- and 2-byte buffers), not proved.",
 )
